@@ -174,9 +174,22 @@ class Entry:
         return self.key
 
 
+def descendants(c):
+    out = []
+    for sub in c.__subclasses__():
+        out.append(sub)
+        out.extend(descendants(sub))
+    return out
+
+
 def real_families():
+    """the concrete shipped families, by introspection (independent of `_select_candidates`)."""
     from copulas.univariate import Univariate
-    return list(Univariate._select_candidates())
+    seen = []
+    for c in descendants(Univariate):
+        if ABC not in c.__bases__ and c not in seen:
+            seen.append(c)
+    return seen
 
 
 def entry_forms(cls, rng=None):
@@ -339,12 +352,16 @@ def run(ctx, lean):
                   'corr:select_univariate', 'corr:gaussian_multivariate'):
             ctx.ob(n, False, 'tie', 'driver unavailable')
         return
-    tie_table(ctx, lean)
-    tie_init(ctx, lean)
-    tie_hierarchies(ctx, lean)
     outs = Outcomes()
-    tie_select(ctx, lean, outs)
-    tie_gm(ctx, lean, outs)
+    for name, fn in (('class-table', lambda: tie_table(ctx, lean)), ('init_candidates', lambda: tie_init(ctx, lean)),
+                     ('random-hierarchies', lambda: tie_hierarchies(ctx, lean)),
+                     ('select_univariate', lambda: tie_select(ctx, lean, outs)),
+                     ('gaussian_multivariate', lambda: tie_gm(ctx, lean, outs))):
+        try:
+            fn()
+        except Exception:     # a crash of one correspondence must not hide the others nor skip the search
+            import traceback
+            ctx.ob('corr:' + name + ':harness-exception', False, 'tie', traceback.format_exc()[-500:])
 
 
 def ask(lean, line):
@@ -571,8 +588,9 @@ class Refs:
         from copulas.univariate import Univariate
         if t in self.objs:
             return self.objs[t]
-        if t == 'Univariate':     # the model's default: the class `Univariate`
-            return Entry('cls:Univariate', Univariate)
+        import copulas.univariate as cu
+        if hasattr(cu, t):        # the model's default: the class named by the generated `defaultDistribution`
+            return Entry('cls:' + t, getattr(cu, t))
         raise KeyError(t)
 
 
@@ -616,7 +634,7 @@ def column_outcome(lean, outs, did, col, entry, series):
     except Exception as e:  # noqa
         return 'err:' + vc.exc_kind(e), 'err', None
     if is_selector(entry):
-        cands = [Entry('cand%d:%s' % (i, fqn(c)), c) for i, c in enumerate(inst.candidates)]
+        cands = [Entry('cand%d:%s' % (i, fqn(c)), c) for i, c in enumerate(inst.candidates or [])]
         # key by the candidate's identity so that the cache is shared between references
         for c in cands:
             c.key = ('cls:' if isinstance(c.obj, type) else 'fqn:' if isinstance(c.obj, str) else 'inst:%d:' % id(c.obj)) + c.type
@@ -695,7 +713,7 @@ def gm_case(ctx, lean, outs, rng, refs, did, df):
             gauss = 'err:' + vc.exc_kind(e)
         req += [col_tok(c), ref_tok, inst, fit, gauss]
         branch.append('noinst' if inst != 'ok' else 'fallback' if fit == 'err' else 'selector' if selinfo else 'configured')
-        if ref_tok == 'Univariate' and kind.startswith('dict'):
+        if ref_tok not in R.objs and kind.startswith('dict'):
             branch.append('dict-default')
     model = ask(lean, 'gm ' + ' '.join(toks) + f' cols {len(columns)} ' + ' '.join(req))
     key = (did, kind, tuple(toks))
@@ -780,104 +798,110 @@ def search(ctx, deep):
         found += 1
         ctx.fail_input(entry, inp, obs, req, cls)
 
-    # ---- 1. optimality of Univariate.fit
-    entries = all_entries()
-    for did, kind, X in datasets(ctx, 'Q', 30 if deep else 5):
-        for mode, L in candidate_lists(rng, entries, 12 if deep else 5) + [('all-real', [Entry('cls:' + c.__name__, c) for c in real_families()])]:
-            outcomes = [outs.get(did, e, X) for e in L]
-            real = real_univariate_fit([e.obj for e in L], X)
+    def part1():
+        nonlocal checked
+        # ---- 1. optimality of Univariate.fit
+        entries = all_entries()
+        for did, kind, X in datasets(ctx, 'Q', 30 if deep else 5):
+            for mode, L in candidate_lists(rng, entries, 12 if deep else 5) + [('all-real', [Entry('cls:' + c.__name__, c) for c in real_families()])]:
+                outcomes = [outs.get(did, e, X) for e in L]
+                real = real_univariate_fit([e.obj for e in L], X)
+                checked += 1
+                inp = {'dataset': did, 'X': X.tolist(), 'candidates': [e.key for e in L]}
+                ks = ['raised' if o is None else o for o in outcomes]
+                finite = [o for o in outcomes if o is not None and o < math.inf]
+                if real[0] == 'ok':
+                    mine = [o for e, o in zip(L, outcomes) if e.type == real[1] and o is not None and o == o]
+                    if not mine:
+                        bad('Univariate.fit', inp, {'selected': real[1], 'ks': ks},
+                            'the selected family is one that could be fitted to the data', 'Univariate.fit:selected-unfittable')
+                        continue
+                    best = min(mine)
+                    smaller = [(e.key, o) for e, o in zip(L, outcomes) if lt(o, best)]
+                    if smaller:
+                        bad('Univariate.fit', inp, {'selected': real[1], 'selected_ks': best, 'smaller': smaller, 'ks': ks},
+                            'no fittable candidate has a strictly smaller KS statistic than the selected one',
+                            'Univariate.fit:not-minimal')
+                elif finite:
+                    bad('Univariate.fit', inp, {'raised': real[1], 'ks': ks},
+                        'a minimiser is selected whenever some candidate can be fitted', 'Univariate.fit:raises-with-fittable-candidate')
+    def part2():
+        nonlocal checked
+        # ---- 2. filters and explicit candidates
+        every = descendants(Univariate)
+        for p, b in filter_pairs():
+            want = {c for c in every if ABC not in c.__bases__ and (p is None or c.PARAMETRIC == p) and (b is None or c.BOUNDED == b)}
+            got = Univariate._select_candidates(p, b)
+            via_init = Univariate(parametric=p, bounded=b).candidates
+            checked += 2
+            if set(got) != want or len(got) != len(set(got)):
+                bad('Univariate._select_candidates', {'parametric': str(p), 'bounded': str(b)}, [c.__name__ for c in got],
+                    'exactly the non-abstract subclasses whose tags match: ' + str(sorted(c.__name__ for c in want)),
+                    'Univariate._select_candidates:filter')
+            # `candidates or …`: an empty result is falsy but `[] or []` is still []
+            if via_init is None or list(via_init) != list(got):
+                bad('Univariate.__init__', {'parametric': str(p), 'bounded': str(b)}, [c.__name__ for c in via_init] if via_init is not None else None,
+                    'candidates = _select_candidates(parametric, bounded)', 'Univariate.__init__:filters-not-used')
+            explicit = rng.sample(every[1:] + [StubShiftA], 2)
+            u = Univariate(candidates=explicit, parametric=p, bounded=b)
             checked += 1
-            inp = {'dataset': did, 'X': X.tolist(), 'candidates': [e.key for e in L]}
-            ks = ['raised' if o is None else o for o in outcomes]
-            finite = [o for o in outcomes if o is not None and o < math.inf]
-            if real[0] == 'ok':
-                mine = [o for e, o in zip(L, outcomes) if e.type == real[1] and o is not None and o == o]
-                if not mine:
-                    bad('Univariate.fit', inp, {'selected': real[1], 'ks': ks},
-                        'the selected family is one that could be fitted to the data', 'Univariate.fit:selected-unfittable')
+            if u.candidates is None or list(u.candidates) != explicit:
+                bad('Univariate.__init__', {'candidates': [c.__name__ for c in explicit], 'parametric': str(p), 'bounded': str(b)},
+                    [getattr(c, '__name__', repr(c)) for c in (u.candidates or [])], 'an explicit candidate list is used as given',
+                    'Univariate.__init__:explicit-candidates-ignored')
+    def part3():
+        nonlocal checked
+        # ---- 3. per-column configuration and fallback
+        refs = [e for e in gm_refs() if e.key not in ('cls:StubRaiseInit', 'fqn:missing-class')]
+        for k in range(12 if deep else 3):
+            did, df = make_frame(ctx, 'H', k)
+            columns = list(df.columns)
+            for _ in range(8 if deep else 4):
+                kind, cfg, toks, R = make_config(rng, refs, columns)
+                gm = GaussianMultivariate() if kind == 'default' else GaussianMultivariate(distribution=cfg)
+                inp = {'dataset': did, 'config': kind, 'distribution': repr(cfg)[:300], 'columns': [str(c) for c in columns],
+                       'data': df.to_numpy().tolist()}
+                checked += 1
+                try:
+                    gm.fit(df)
+                except Exception as e:  # noqa
+                    bad('GaussianMultivariate.fit', inp, 'raised ' + type(e).__name__ + ': ' + str(e)[:120],
+                        'the fit succeeds (columns whose distribution cannot be fitted are modelled by a Gaussian)',
+                        'GaussianMultivariate.fit:raises')
                     continue
-                best = min(mine)
-                smaller = [(e.key, o) for e, o in zip(L, outcomes) if lt(o, best)]
-                if smaller:
-                    bad('Univariate.fit', inp, {'selected': real[1], 'selected_ks': best, 'smaller': smaller, 'ks': ks},
-                        'no fittable candidate has a strictly smaller KS statistic than the selected one',
-                        'Univariate.fit:not-minimal')
-            elif finite:
-                bad('Univariate.fit', inp, {'raised': real[1], 'ks': ks},
-                    'a minimiser is selected whenever some candidate can be fitted', 'Univariate.fit:raises-with-fittable-candidate')
-    # ---- 2. filters and explicit candidates
-    def descendants(c):
-        out = []
-        for s in c.__subclasses__():
-            out.append(s)
-            out.extend(descendants(s))
-        return out
-    every = descendants(Univariate)
-    for p, b in filter_pairs():
-        want = {c for c in every if ABC not in c.__bases__ and (p is None or c.PARAMETRIC == p) and (b is None or c.BOUNDED == b)}
-        got = Univariate._select_candidates(p, b)
-        via_init = Univariate(parametric=p, bounded=b).candidates
-        checked += 2
-        if set(got) != want or len(got) != len(set(got)):
-            bad('Univariate._select_candidates', {'parametric': str(p), 'bounded': str(b)}, [c.__name__ for c in got],
-                'exactly the non-abstract subclasses whose tags match: ' + str(sorted(c.__name__ for c in want)),
-                'Univariate._select_candidates:filter')
-        # `candidates or …`: an empty result is falsy but `[] or []` is still []
-        if list(via_init) != list(got):
-            bad('Univariate.__init__', {'parametric': str(p), 'bounded': str(b)}, [c.__name__ for c in via_init],
-                'candidates = _select_candidates(parametric, bounded)', 'Univariate.__init__:filters-not-used')
-        explicit = rng.sample(every[1:] + [StubShiftA], 2)
-        u = Univariate(candidates=explicit, parametric=p, bounded=b)
-        checked += 1
-        if list(u.candidates) != explicit:
-            bad('Univariate.__init__', {'candidates': [c.__name__ for c in explicit], 'parametric': str(p), 'bounded': str(b)},
-                [getattr(c, '__name__', repr(c)) for c in u.candidates], 'an explicit candidate list is used as given',
-                'Univariate.__init__:explicit-candidates-ignored')
-    # ---- 3. per-column configuration and fallback
-    refs = [e for e in gm_refs() if e.key not in ('cls:StubRaiseInit', 'fqn:missing-class')]
-    for k in range(12 if deep else 3):
-        did, df = make_frame(ctx, 'H', k)
-        columns = list(df.columns)
-        for _ in range(8 if deep else 4):
-            kind, cfg, toks, R = make_config(rng, refs, columns)
-            gm = GaussianMultivariate() if kind == 'default' else GaussianMultivariate(distribution=cfg)
-            inp = {'dataset': did, 'config': kind, 'distribution': repr(cfg)[:300], 'columns': [str(c) for c in columns],
-                   'data': df.to_numpy().tolist()}
-            checked += 1
-            try:
-                gm.fit(df)
-            except Exception as e:  # noqa
-                bad('GaussianMultivariate.fit', inp, 'raised ' + type(e).__name__ + ': ' + str(e)[:120],
-                    'the fit succeeds (columns whose distribution cannot be fitted are modelled by a Gaussian)',
-                    'GaussianMultivariate.fit:raises')
-                continue
-            for c, u in zip(gm.columns, gm.univariates):
-                if kind == 'default':
-                    entry = Entry('cls:Univariate', Univariate)
-                elif isinstance(cfg, dict):
-                    entry = Entry('configured', cfg[c]) if c in cfg else Entry('cls:Univariate', Univariate)
-                else:
-                    entry = Entry('configured', cfg)
-                got = u.to_dict()['type']
-                gaussian = fqn(GaussianUnivariate)
-                inp_c = dict(inp, column=str(c), configured=entry.key if entry.key != 'configured' else repr(entry.obj)[:80])
-                inst, fit, selinfo = real_column_expectation(outs, did, col_tok(c), entry, df[c])
-                is_default = kind == 'default' or (isinstance(cfg, dict) and c not in cfg)
-                cls_key = 'GaussianMultivariate.fit:default-distribution' if is_default else 'GaussianMultivariate.fit:column-type'
-                if fit is None:            # the configured distribution cannot be fitted => Gaussian
-                    if got != gaussian:
-                        bad('GaussianMultivariate.fit', inp_c, got, 'column modelled by GaussianUnivariate (fallback)',
-                            'GaussianMultivariate.fit:fallback-not-gaussian')
-                elif selinfo is None:
-                    if got != fit:
-                        bad('GaussianMultivariate.fit', inp_c, got, f'column modelled by the configured distribution {fit}', cls_key)
-                else:
-                    cands, outcomes = selinfo
-                    mine = [o for e, o in zip(cands, outcomes) if e.type == got and o is not None and o == o]
-                    if not mine or any(lt(o, min(mine)) for o in outcomes):
-                        bad('GaussianMultivariate.fit', inp_c, {'type': got, 'ks': {e.type: o for e, o in zip(cands, outcomes)}},
-                            'column modelled by a KS-minimiser among the candidates of the '
-                            + ('default distribution Univariate' if is_default else 'configured Univariate'), cls_key)
+                for c, u in zip(gm.columns, gm.univariates):
+                    if kind == 'default':
+                        entry = Entry('cls:Univariate', Univariate)
+                    elif isinstance(cfg, dict):
+                        entry = Entry('configured', cfg[c]) if c in cfg else Entry('cls:Univariate', Univariate)
+                    else:
+                        entry = Entry('configured', cfg)
+                    got = u.to_dict()['type']
+                    gaussian = fqn(GaussianUnivariate)
+                    inp_c = dict(inp, column=str(c), configured=entry.key if entry.key != 'configured' else repr(entry.obj)[:80])
+                    inst, fit, selinfo = real_column_expectation(outs, did, col_tok(c), entry, df[c])
+                    is_default = kind == 'default' or (isinstance(cfg, dict) and c not in cfg)
+                    cls_key = 'GaussianMultivariate.fit:default-distribution' if is_default else 'GaussianMultivariate.fit:column-type'
+                    if fit is None:            # the configured distribution cannot be fitted => Gaussian
+                        if got != gaussian:
+                            bad('GaussianMultivariate.fit', inp_c, got, 'column modelled by GaussianUnivariate (fallback)',
+                                'GaussianMultivariate.fit:fallback-not-gaussian')
+                    elif selinfo is None:
+                        if got != fit:
+                            bad('GaussianMultivariate.fit', inp_c, got, f'column modelled by the configured distribution {fit}', cls_key)
+                    else:
+                        cands, outcomes = selinfo
+                        mine = [o for e, o in zip(cands, outcomes) if e.type == got and o is not None and o == o]
+                        if not mine or any(lt(o, min(mine)) for o in outcomes):
+                            bad('GaussianMultivariate.fit', inp_c, {'type': got, 'ks': {e.type: o for e, o in zip(cands, outcomes)}},
+                                'column modelled by a KS-minimiser among the candidates of the '
+                                + ('default distribution Univariate' if is_default else 'configured Univariate'), cls_key)
+    for part in (part1, part2, part3):
+        try:
+            part()
+        except Exception:
+            import traceback
+            ctx.notes.append('search %s crashed: %s' % (part.__name__, traceback.format_exc()[-300:]))
     ctx.support = {'oracle_checks': checked, 'failures': found, 'deep': deep}
 
 
@@ -887,7 +911,7 @@ def real_column_expectation(outs, did, col, entry, series):
     inst = get_instance(entry.obj)
     if is_selector(entry):
         cands = []
-        for i, c in enumerate(inst.candidates):
+        for i, c in enumerate(inst.candidates or []):
             e = Entry('x', c)
             e.key = ('cls:' if isinstance(c, type) else 'fqn:' if isinstance(c, str) else 'inst:%d:' % id(c)) + e.type
             cands.append(e)
